@@ -271,6 +271,40 @@ constexpr auto CT_MEMCHR_AT = ce_table<Arr<int, NSTR * NCHR * NOFF * NOFF>>([](s
     return at_pair(off, n) ? memchr_ct(i, k, off, n) : -2;
 });
 
+// op strncmp_pre: etl::strncmp on the UNTERMINATED prefixes row_i[0, L) and row_j[0, L) held in array objects of
+// exactly L characters (constant evaluation: `new char[L]`, whose extent the evaluator knows; run time: heap blocks
+// of L bytes).  In the domain when the comparison ends inside both arrays or the count does not exceed L (C17
+// 7.24.4.4: "not more than n characters"); with count == L and equal prefixes the last character compared is the last
+// element of both arrays.
+constexpr size_t PRE_LEN[] = {0, 1, 2, 3, 5, 11, 12};
+constexpr size_t NPRE      = len(PRE_LEN);
+constexpr size_t NPREJ     = 3; // partner rows: i itself, the next row, a scattered one
+constexpr size_t NPREC     = 4; // counts: 0, 1, L - 1, L
+constexpr size_t pre_partner(size_t i, size_t sel) { return sel == 0 ? i : (sel == 1 ? (i + 1) % NSTR : (i * 7 + 3) % NSTR); }
+constexpr size_t pre_count(size_t L, size_t c) { return c == 0 ? 0 : (c == 1 ? 1 : (c == 2 ? (L == 0 ? 0 : L - 1) : L)); }
+template <typename Call>
+constexpr int strncmp_pre_run(size_t i, size_t j, size_t L, size_t cnt, Call call)
+{
+    char* a = new char[L];
+    char* b = new char[L];
+    for (size_t k = 0; k < L; ++k) {
+        a[k] = T_STR[i][k];
+        b[k] = T_STR[j][k];
+    }
+    int const r = call(a, b, cnt);
+    delete[] a;
+    delete[] b;
+    return r;
+}
+constexpr auto CT_STRNCMP_PRE = ce_table<Arr<int, NSTR * NPREJ * NPRE * NPREC>>([](size_t x) {
+    auto const c   = x % NPREC;
+    auto const l   = (x / NPREC) % NPRE;
+    auto const sel = (x / NPREC / NPRE) % NPREJ;
+    auto const i   = x / NPREC / NPRE / NPREJ;
+    return strncmp_pre_run(i, pre_partner(i, sel), PRE_LEN[l], pre_count(PRE_LEN[l], c),
+        [](char const* a, char const* b, size_t n) { return sgn(etl::strncmp(a, b, n)); });
+});
+
 // ------------------------------------------------------------------ floating point
 template <typename F>
 struct fbits;
@@ -1018,6 +1052,24 @@ bool run_case_body(std::string const& op, Toks& in, Out& impl, Out& ref)
             put_ce(impl, CT_MEMCHR, (i * NCHR + k) * NMEM + n);
             ref.tok("ok").num(p == nullptr ? -1 : static_cast<long long>(static_cast<char const*>(p) - a));
         }
+        return true;
+    }
+    // ---- strncmp_pre <i> <sel> <l> <c> <j> <L> <count> <row i> <row j>
+    if (op == "strncmp_pre") {
+        auto const i   = static_cast<size_t>(in.num());
+        auto const sel = static_cast<size_t>(in.num());
+        auto const l   = static_cast<size_t>(in.num());
+        auto const c   = static_cast<size_t>(in.num());
+        if (i >= NSTR || sel >= NPREJ || l >= NPRE || c >= NPREC) { return false; }
+        auto const j   = pre_partner(i, sel);
+        auto const L   = PRE_LEN[l];
+        auto const cnt = pre_count(L, c);
+        if (!check_val(in, j, impl) || !check_val(in, L, impl) || !check_val(in, cnt, impl)) { return true; }
+        if (!check_row(in, i, impl) || !check_row(in, j, impl)) { return true; }
+        impl.tok("ok").num(CT_STRNCMP_PRE[((i * NPREJ + sel) * NPRE + l) * NPREC + c]);
+        ref.tok("ok").num(strncmp_pre_run(launder(i), launder(j), launder(L), launder(cnt), [](char const* a, char const* b, size_t n) {
+            return sgn(etl::strncmp(launder(a), launder(b), launder(n)));
+        }));
         return true;
     }
     // ---- memchr_at <i> <k> <off> <n> <ch> <row>: search of [row + off, row + off + n), off + n <= STRW
